@@ -111,6 +111,9 @@ def wsel_ids(spec, sel):
         h = max(1, min(sel["h"], R - r0))
         w = max(1, min(sel["w"], C - c0))
         grid = [[wid(r, c) for c in range(c0, c0 + w)] for r in range(r0, r0 + h)]
+        flat = [grid[r][c] for c in range(len(grid[0])) for r in range(len(grid))]
+        # executed as a slice of the labware's own `wells` array (the usual way to write it): labware.wells[r0:r0+h, c0:c0+w]
+        return {"t": "arr2", "ids": grid, "slice": [r0, h, c0, w]}, flat
     else:
         width = min(len(row) for row in sel["w"])
         grid = [[cell_id(spec, c) for c in row[:width]] for row in sel["w"]]
@@ -118,8 +121,11 @@ def wsel_ids(spec, sel):
     return {"t": "arr2", "ids": grid}, flat
 
 
-def ids_arg(csel):
+def ids_arg(csel, lw=None):
     t = csel["t"]
+    if lw is not None and csel.get("slice"):
+        r0, h, c0, w = csel["slice"]
+        return lw.wells[r0 : r0 + h, c0 : c0 + w]
     if t == "scalar":
         return csel["ids"]
     if t == "list":
@@ -599,7 +605,7 @@ def execute(world, conc):
     try:
         if kind in ("add", "remove"):
             lw = labs[conc["lw"]]
-            args = (ids_arg(conc["wells"]), vols_arg(conc["vols"], conc.get("ints")))
+            args = (ids_arg(conc["wells"], lw), vols_arg(conc["vols"], conc.get("ints")))
             if kind == "add":
                 comps = None
                 if conc.get("comps"):
@@ -612,13 +618,13 @@ def execute(world, conc):
             kw = dict(conc.get("kw") or {})
             if kind == "dispense" and conc.get("comps"):
                 kw["compositions"] = _comps_arg(world, conc)
-            getattr(wl, kind)(lw, ids_arg(conc["wells"]), vols_arg(conc["vols"], conc.get("ints")), label=conc.get("label"), **kw)
+            getattr(wl, kind)(lw, ids_arg(conc["wells"], lw), vols_arg(conc["vols"], conc.get("ints")), label=conc.get("label"), **kw)
         elif kind == "transfer":
             wl.transfer(
                 labs[conc["src"]],
-                ids_arg(conc["sw"]),
+                ids_arg(conc["sw"], labs[conc["src"]]),
                 labs[conc["dst"]],
-                ids_arg(conc["dw"]),
+                ids_arg(conc["dw"], labs[conc["dst"]]),
                 vols_arg(conc["vols"], conc.get("ints")),
                 label=conc.get("label"),
                 wash_scheme=conc.get("wash", 1),
@@ -626,7 +632,7 @@ def execute(world, conc):
                 **(conc.get("kw") or {}),
             )
         elif kind == "distribute":
-            wl.distribute(labs[conc["src"]], conc["col"], labs[conc["dst"]], ids_arg(conc["dw"]), volume=conc["vol"], label=conc.get("label") or "", **(conc.get("kw") or {}))
+            wl.distribute(labs[conc["src"]], conc["col"], labs[conc["dst"]], ids_arg(conc["dw"], labs[conc["dst"]]), volume=conc["vol"], label=conc.get("label") or "", **(conc.get("kw") or {}))
         elif kind in ("evo_aspirate", "evo_dispense"):
             vols_ = conc["vols"]
             if isinstance(vols_, list) and conc.get("vols_container") == "tuple":
